@@ -243,17 +243,40 @@ class Hocur(probe.Contract):
         x, bl = np.asarray(v['x']), v['basis_list']
         m = x.shape[1]
         n = [len(f) for f in bl]
-        if int(np.prod(n)) * m > 2 ** 15 or not (_is_tt(res) and tt_consistent(res)[0]):
+        if not (_is_tt(res) and tt_consistent(res)[0]):
+            return
+        p = len(n)
+        large = float(np.prod([float(k) for k in n])) * m > 2 ** 15
+        if large and (m > 64 or p > 80):
             return
         with probe.oracle():
             factors = [np.array([[float(f(x[:, j])) for j in range(m)] for f in fl]) for fl in pristine(bl)]
-        want = product_tensor(factors)
-        p = len(n)
+        want = None if large else product_tensor(factors)
+        if large:
+            # many modes: the unfolding at bond k is L_k diag(|R_k[:, j]|) Q^T with Q orthonormal (the snapshot index sits on the right):
+            # its singular values are those of L_k diag(...), obtained from m x m Gram matrices (Hadamard products over the modes)
+            grams = [f.T @ f for f in factors]
+            def unfolding_spectrum(k):
+                GL = np.ones((m, m))
+                for g in grams[:k]:
+                    GL = GL * g
+                dR = np.ones(m)
+                for g in grams[k:]:
+                    dR = dR * np.diag(g)
+                dR = np.sqrt(np.maximum(dR, 0.0))
+                ev = np.linalg.eigvalsh(dR[:, None] * GL * dR[None, :])
+                return np.sqrt(np.maximum(ev[::-1], 0.0))
         # true TT ranks of the transformed data tensor
         true = [1]
         smin_rel = 1.0
         for k in range(1, p + 1):
-            s = np.linalg.svd(want.reshape(int(np.prod(n[:k])), -1), compute_uv=False)
+            s = unfolding_spectrum(k) if large else np.linalg.svd(want.reshape(int(np.prod(n[:k])), -1), compute_uv=False)
+            if large and s[0] > 0:
+                # (eigenvalues of a Gram matrix resolve singular values only down to sqrt(eps) relative: decided only with a gap there)
+                if np.any((s > 1e-9 * s[0]) & (s <= 1e-6 * s[0])):
+                    c.skip('hocur_rank_decision_without_spectral_gap')
+                    return
+                s = np.where(s > 1e-6 * s[0], s, 0.0)
             r = int(np.sum(s > 1e-10 * max(s[0], 1e-300)))
             if np.any((s > 1e-15 * max(s[0], 1e-300)) & (s <= 1e-10 * max(s[0], 1e-300))):
                 # directions of relative size 1e-15..1e-10: whether the cross approximation takes them for independent columns (its
@@ -287,6 +310,28 @@ class Hocur(probe.Contract):
                     {'true_ranks': true, 'requested': req, 'returned': got_r, 'sampled_submatrix_ranks_and_columns_found': li, 'columns_kept': mv}, prop=P)
             return
         c.check(self.api, 'ranks_reduced_only_when_sampled_columns_are_deficient', True, ['snapshots=1' if m == 1 else 'snapshots>1'], prop=P)
+        if large:
+            # entries at sampled multi-indices (all snapshots each) instead of the dense tensor
+            rs = np.random.default_rng(p * 1000 + m)
+            worst, scale = 0.0, 0.0
+            for _ in range(200):
+                idx = [int(rs.integers(0, k)) for k in n]
+                wv = np.ones(m)
+                for k in range(p):
+                    wv = wv * factors[k][idx[k], :]
+                M = np.ones((1, 1))
+                for k in range(p):
+                    M = M @ res.cores[k][:, idx[k], 0, :]
+                gv = (M @ res.cores[p][:, :, 0, 0]).reshape(-1)
+                worst, scale = max(worst, float(np.max(np.abs(gv - wv)))), max(scale, float(np.max(np.abs(wv))))
+            err = worst / max(scale, 1e-300)
+            LAST_HOCUR['exact'] = err <= 1e-10
+            c.check(self.api, 'reproduces_tensor_when_ranks_suffice', err <= 1e-6, ['snapshots=1' if m == 1 else 'snapshots>1', 'many_modes_sampled_entries'],
+                    {'rel_err_on_200_sampled_fibres': err, 'modes': n, 'snapshots': m, 'true_ranks': true, 'requested': req, 'returned': got_r}, prop=P)
+            c.events['hocur_decided'] += 1
+            c.events['hocur_decided_many_modes'] += 1
+            c.sig(self.api, 'many_modes', p, m, true[:6], v['repeats'], v['multiplier'])
+            return
         got = dense_cores(res.cores).reshape(want.shape)
         sc = max(float(np.linalg.norm(want)), 1e-300)
         err = float(np.linalg.norm(got - want)) / sc
